@@ -78,7 +78,8 @@ def gen(progs, seed, only=None):
             let got = if pretty {{ format!("{{:#?}}", v) }} else {{ format!("{{:?}}", v) }};
             let mut e = Sink::new(); exp_{s.name}(raw, pretty, 0, &mut e);
             n += 1;
-            if e.overflow || got != text(&e) {{ bad += 1; if first {{ first = false;
+            if e.overflow {{ println!("ORACLE-OVERFLOW {s.name}"); std::process::exit(3); }}
+            if got != text(&e) {{ bad += 1; if first {{ first = false;
                 println!("MISMATCH {s.name} raw={{:#x}} pretty={{}}\\n--- real Debug output:\\n{{}}\\n--- required text:\\n{{}}", raw, pretty, got, text(&e)); }} }}
         }}
       }}
@@ -96,7 +97,11 @@ def run(work, progs, seed, only=None):
     shutil.copy(os.path.join(xrun.REPO, "Cargo.lock"), os.path.join(d, "Cargo.lock"))
     xrun.write(os.path.join(d, "src", "main.rs"), src)
     shutil.copy(os.path.join(xrun.VERIF, "spec", "spec.rs"), os.path.join(d, "src", "spec.rs"))
-    shutil.copy(os.path.join(xrun.VERIF, "spec", "dbgspec.rs"), os.path.join(d, "src", "dbgspec.rs"))
+    # the oracle's fixed sink is sized for the Kani proofs (192 bytes); the native run has structs with up to 48 fields and pretty
+    # output, so it gets a large sink -- an oracle overflow is a defect of this machinery (exit 2), never a mismatch
+    spec_txt = open(os.path.join(xrun.VERIF, "spec", "dbgspec.rs")).read()
+    assert "pub const SINK: usize = 192;" in spec_txt
+    xrun.write(os.path.join(d, "src", "dbgspec.rs"), spec_txt.replace("pub const SINK: usize = 192;", "pub const SINK: usize = 16384;"))
     rc, out = xrun.sh(["cargo", "run", "--offline", "-q", "--release"], cwd=d, env={"CARGO_TARGET_DIR": os.path.join(xrun.WORK, "target-replay")}, timeout=3000)
     out = "\n".join(l for l in out.splitlines() if "WARNING conda" not in l)
     checked = {}
@@ -109,6 +114,8 @@ def run(work, progs, seed, only=None):
     for l in out.split("MISMATCH ")[1:]:
         name = l.split()[0]
         mism[name] = "MISMATCH " + l[:900]
+    if "ORACLE-OVERFLOW" in out:
+        raise xrun.Infra("the oracle's text sink overflowed in the native Debug enumeration (machinery defect):\n" + out[-500:])
     if not checked:
         raise xrun.Infra("native Debug enumeration did not run:\n" + out[-2000:])
     return plan, checked, mism, src
